@@ -37,6 +37,8 @@ AXES = {
     'tiny2': np.array([0.0, 1.5]),
     'long7': np.array([-3.0, -2.0, -0.5, 0.0, 1.0, 2.5, 4.0]),
 }
+# stencil size of each method (polynomial degree + 1; akima uses 4): shorter axes are refused at construction
+MINPTS = {'slinear': 2, 'lagrange2': 3, 'lagrange3': 4, 'cubic': 4, 'akima': 4}
 GENERAL = ['slinear', 'lagrange2', 'lagrange3', 'akima', 'cubic']
 SCIPY = ['scipy_slinear', 'scipy_cubic', 'scipy_quintic']
 FIXED = {1: {'slinear': '1D-slinear', 'lagrange2': '1D-lagrange2', 'lagrange3': '1D-lagrange3', 'akima': '1D-akima'},
@@ -98,7 +100,8 @@ def mk(method, axes, vals, extrapolate=True):
 
 def run_c15(T, big):
     from openmdao.components.interp_util.outofbounds_error import OutOfBoundsError
-    axis_names = list(AXES) if big else ['neg', 'to0', 'mixed', 'short']
+    # (the tiny axes are shorter than some stencils / force reduced spline orders: they are used by the mixed-order section only)
+    axis_names = [n for n in AXES if not n.startswith('tiny')] if big else ['neg', 'to0', 'mixed', 'short']
     methods = GENERAL + SCIPY
     for dim in (1, 2, 3):
         combos = list(itertools.product(axis_names, repeat=dim))
@@ -111,6 +114,8 @@ def run_c15(T, big):
             for method in methods:
                 if method == 'scipy_quintic' and min(len(a) for a in axes) < 6:
                     continue
+                if min(len(a) for a in axes) < MINPTS.get(method, 2):
+                    continue        # fewer points than the method's stencil: InterpND refuses the table (ValueError at construction)
                 deg = DEG[method]
                 f = poly(deg, dim)
                 vals = table(axes, f)
